@@ -47,6 +47,11 @@ type Case struct {
 	DelayH int    `json:"delay_h,omitempty"`
 	Warm   bool   `json:"warm,omitempty"`
 	Prior  string `json:"prior,omitempty"`
+	// InPlace: the reconfiguration overwrites the EntityDescriptor the SP points to instead of replacing the pointer
+	InPlace bool `json:"in_place,omitempty"`
+	// IssuerFormat: Format attribute of the Issuer ("" = entity | "-" = none | literal): whatever it says, the value
+	// must be the IdP's entity ID
+	IssuerFormat string `json:"issuer_format,omitempty"`
 	Noise  uint64 `json:"noise,omitempty"`   // logout | response | assertion | norootcomment | empty | text | notxml | badb64 | baddeflate | soap | bomb
 }
 
@@ -156,7 +161,7 @@ func document(c Case, issueInstant time.Time) (doc []byte, genuineSigned bool, e
 	}
 	l := forge.LogoutSpec{
 		ID: "id-logout-1", InResponseTo: forge.S("id-logoutreq"), IssueInstant: forge.T(issueInstant),
-		Destination: value(c.Dest, spkit.SPSLO), Issuer: value(c.Issuer, spkit.IDPEntity), Status: statuses[c.Status], Sign: sign,
+		Destination: value(c.Dest, spkit.SPSLO), Issuer: value(c.Issuer, spkit.IDPEntity), IssuerFormat: c.IssuerFormat, Status: statuses[c.Status], Sign: sign,
 	}
 	// "edit-*" transforms sign a message that differs in one field and then set the field
 	// to its presented value, so the presented content is NOT what was signed.
@@ -293,7 +298,7 @@ func check(c Case) pbt.Result {
 		}
 	}
 	if c.Prior != "" {
-		spkit.Retrust(sp, c.Trust)
+		spkit.Retrust(sp, c.Trust, c.InPlace)
 	}
 
 	var payload string
@@ -378,6 +383,8 @@ func check(c Case) pbt.Result {
 
 // ---------------------------------------------------------------- generators
 
+var issuerFormats = []string{"-", "urn:oasis:names:tc:SAML:1.1:nameid-format:unspecified", "urn:oasis:names:tc:SAML:2.0:nameid-format:persistent", "urn:oasis:names:tc:SAML:2.0:nameid-format:transient", "urn:example:no-such-format", " "}
+
 var transforms = []string{"none", "none", "none", "sig-into-status", "sig-into-extensions", "wrapped", "edit-dest", "edit-issuer", "edit-status", "edit-instant", "resign-attacker", "resign-attacker-chain", "resign-attacker-chain-rev", "resign-attacker-own-cert", "strip-sig", "dup-sig"}
 var roots = []string{"logout", "logout", "logout", "logout", "logout", "logout", "logout", "logout", "response", "assertion", "norootcomment", "empty", "text", "notxml", "badb64", "baddeflate", "soap", "bomb"}
 
@@ -395,9 +402,13 @@ func gen(t *rapid.T) Case {
 	c.Warm = rapid.IntRange(0, 3).Draw(t, "warm") == 0
 	if rapid.IntRange(0, 3).Draw(t, "reconfigured") == 0 {
 		c.Prior = rapid.SampledFrom(spkit.Trusts).Draw(t, "prior")
+		c.InPlace = rapid.Bool().Draw(t, "inplace")
+	}
+	if rapid.IntRange(0, 2).Draw(t, "issuerformat?") == 0 {
+		c.IssuerFormat = rapid.SampledFrom(issuerFormats).Draw(t, "issuerformat")
 	}
 	if rapid.IntRange(0, 2).Draw(t, "noise?") == 0 {
-		c.Noise = rapid.Uint64Range(1, 255).Draw(t, "noise")
+		c.Noise = rapid.Uint64Range(1, 1023).Draw(t, "noise")
 	}
 	return c
 }
@@ -428,7 +439,15 @@ func enumReconfigured(_ string, emit func(Case)) {
 			for _, signer := range []string{"idp", "idp2"} {
 				for _, entry := range []string{"form", "redirect"} {
 					emit(Case{Entry: entry, Trust: trust, Prior: prior, Warm: true, Signer: signer, Transform: "none", Dest: ok, Issuer: ok, Status: "success", Age: "fresh", Root: "logout"})
+					emit(Case{Entry: entry, Trust: trust, Prior: prior, Warm: true, InPlace: true, Signer: signer, Transform: "none", Dest: ok, Issuer: ok, Status: "success", Age: "fresh", Root: "logout"})
 				}
+			}
+		}
+	}
+	for _, f := range issuerFormats {
+		for _, iss := range []Field{ok, {Class: "wrong"}, {Class: "empty"}, {Class: "near", Kind: xgen.NearMissKeys[0]}} {
+			for _, entry := range []string{"form", "redirect", "request-post", "request-get"} {
+				emit(Case{Entry: entry, Trust: "meta1", Signer: "idp", Transform: "none", Dest: ok, Issuer: iss, IssuerFormat: f, Status: "success", Age: "fresh", Root: "logout"})
 			}
 		}
 	}
@@ -498,7 +517,7 @@ func enumSingleFault(_ string, emit func(Case)) {
 var prop = &pbt.Prop[Case]{
 	ID: "C18",
 	Rule: "cases: LogoutResponse documents built by the harness and presented through ValidateLogoutResponseForm / Redirect / Request(GET, POST): signer in {trusted, second trusted, encryption-only IdP key, untrusted, nobody} x trust configuration x transformation after signing " +
-		"(signature moved into Status / Extensions, wrapped in an evil root with the signature copied, one field edited after signing, re-signed by the untrusted key with the trusted certificate in KeyInfo (alone, or in a two-certificate chain in either order), stripped, duplicated) x Destination, Issuer in {correct, wrong, near-miss, empty, absent} x Status x IssueInstant age {0, 1/2, 3/2, 10} x MaxIssueDelay in {1 h, 6 h, 48 h} and future-dated, on an SP value that may have validated a genuine logout response before - under another trust configuration (all ordered pairs enumerated) - and with unrelated SP options set, " +
+		"(signature moved into Status / Extensions, wrapped in an evil root with the signature copied, one field edited after signing, re-signed by the untrusted key with the trusted certificate in KeyInfo (alone, or in a two-certificate chain in either order), stripped, duplicated) x Destination, Issuer in {correct, wrong, near-miss, empty, absent} (Issuer with any Format attribute) x Status x IssueInstant age {0, 1/2, 3/2, 10} x MaxIssueDelay in {1 h, 6 h, 48 h} and future-dated, on an SP value that may have validated a genuine logout response before - under another trust configuration (all ordered pairs enumerated) - and with unrelated SP options set, " +
 		"plus malformed framings (rootless, empty, text, truncated XML, bad base64, bad deflate, 11 MiB deflate bomb, SOAP envelope, a genuinely signed Response or Assertion presented as a logout response). " +
 		"exhaustive single-fault grid over every entry point and trust configuration plus rapid full combinations. oracle: nil error iff untouched trusted enveloped signature on the root, Destination = SLO URL, Issuer = IdP entity ID, fresh, Success; never a panic. " +
 		"non-trivial: the document carries a signature that verifies under some key and differs from the accepted baseline, or is malformed. distinct: sha256 of the JSON case.",
